@@ -124,7 +124,11 @@ pub fn fuzz_one(key: &str, data: &[u8]) {
     static HOOK: std::sync::Once = std::sync::Once::new();
     // libfuzzer-sys installs a panic hook that aborts; the checks rely on catch_unwind for the
     // documented rejection panics, so the harness' recording hook replaces it
-    HOOK.call_once(install_panic_hook);
+    HOOK.call_once(|| {
+        install_panic_hook();
+        let verif_dir = std::env::var("VERIF_DIR").unwrap_or_else(|_| "/verif".to_string());
+        load_open_findings(&verif_dir, key.split('/').next().unwrap_or(""));
+    });
     let tape = bytes_to_tape(data);
     let (case, r) = run_tape(key, &tape, true);
     if let Err(m) = r {
